@@ -29,6 +29,10 @@ CHECKS = {
         technique='property-based metamorphic testing: generated configuration triples related by equality-preserving / single equality-breaking rewrites; algebraic laws of == plus congruence with build checked against canonical forms',
         text='Hypothesis generates a base DAG x and y=r1(x), z=r2(y) with r drawn from 7 equality-preserving rewrites (deepcopy, pickle, rebuild, default made explicit incl. positional-only, dict reordered, edit history, alias to a tuple of literals redirected) and 5 equality-breaking rewrites (leaf, callable, Buildable type, alias redirected, copies merged); totality, reflexivity, symmetry, transitivity, !=, expected truth value and x==y => identical built graphs (sharing included) are checked. Two genuine defects of the first-visit-path DAG comparison are listed as known findings with a narrow input feature.',
         note='Trusted: rewrite functions and first_visit_paths classifier in harness/props/c06.py, harness/canon.py. NaN leaves excluded.'),
+    'C07': dict(
+        technique='property-based testing with edit histories: generated configuration x copy operation x edits on the copy; round-trip (canonical form) and identity-disjointness oracle, frame condition on the original after every edit',
+        text='For each generated DAG (all Buildable types, positional/*args/keyword arguments, tags, shared containers, explicit mutable defaults) and each of 8 copy operations, the copy must be canonically equal (tags, sharing), deep copies must share no Buildable / argument dict / container / tag set / history list with the original, shallow copies must have fresh top-level state with identical argument values, and 1-8 generated edits of the copy (arguments, tags, TaggedValue assignment, in-place container mutation for deep copies) must leave the original\'s canonical form with history and its build unchanged.',
+        note='Trusted: harness/canon.py, mutable_objects() enumeration in props/c07.py.'),
 }
 
 PENDING = {}
